@@ -182,6 +182,9 @@ def make_worker(tier):
             src = logger.sources.get(fname)
             if src is None or not (1 <= node.meta.line <= len(src.split("\n"))):
                 S.violation("C11.cite", "C11.cite/cited-line-does-not-exist/%s" % ("unknown-source" if src is None else "line-out-of-range"), inp, expected="line of %s" % fname, actual={"line": node.meta.line, "lines": None if src is None else len(src.split("\n")), "message": msg[:100]})
+            elif src.split("\n")[node.meta.line - 1] not in rendered:
+                # the diagnostic quotes the cited line: it must be the line of the CURRENT source
+                S.violation("C11.cite", "C11.cite/quoted-line-is-not-the-cited-source-line", inp, expected=src.split("\n")[node.meta.line - 1], actual=rendered[-400:])
 
     def _site(e):
         import traceback
@@ -240,6 +243,68 @@ def make_worker(tier):
     return work
 
 
+HIST_TEXTS = [
+    'version: "3"\nstruct A { x @0: u8, }\n',
+    'version: "3"\n\n\nstruct A {\n x @0: u8,\n y @1: Zz,\n}\n',
+    'version: "3"\nstruct A { x @0: u8 }\n',
+    'version: "3"\nenum E { a = 0, }\n\n\n\n\nstruct B { e @0: E, f @1: Nope, }\n',
+    'version: "3"\nstruct A { x @1.5: u8, }',
+    'version: "4"\n',
+    "",
+]
+
+
+def run_logger_histories(S, tier):
+    """Every sequence (length <= 3, thorough 4) of parses through ONE Logger object, explored by
+    fork-snapshot; after each parse the result must be Ok or an Err that renders and quotes the current text."""
+    from fcp.parser import get_fcp_from_string
+    from fcp.error import Logger
+    from ..common import fork_histories
+
+    depth = 3 if tier == "quick" else 4
+    live = {"logger": Logger({})}
+
+    def apply_op(op, hist):
+        text = HIST_TEXTS[op]
+        lg = live["logger"]
+        try:
+            res = get_fcp_from_string(text, lg)
+        except Exception as e:  # noqa
+            return {"exc": "%s: %s" % (type(e).__name__, str(e)[:200])}
+        if res.is_ok():
+            return {"ok": True}
+        err = res.err()
+        try:
+            rendered = lg.error(err)
+        except Exception as e:  # noqa
+            return {"render_exc": "%s: %s" % (type(e).__name__, str(e)[:200])}
+        bad = []
+        for msg, node, _w in err.msg:
+            if node is None:
+                continue
+            lines = text.split("\n")
+            if not (1 <= node.meta.line <= len(lines)):
+                bad.append("line %d of %d" % (node.meta.line, len(lines)))
+            elif lines[node.meta.line - 1] not in rendered:
+                bad.append("quotes another text than line %d: %r" % (node.meta.line, lines[node.meta.line - 1]))
+        return {"err": True, "bad": bad, "rendered_tail": rendered[-300:] if bad else ""}
+
+    for hist, o in fork_histories(list(range(len(HIST_TEXTS))), depth, apply_op):
+        S.count("states")
+        S.count("transitions")
+        S.count("executions")
+        S.count("logger_histories")
+        S.add("nontrivial", ("hist", hist))
+        inp = {"family": "logger-history", "ops": ["parse:%d" % h for h in hist], "texts": HIST_TEXTS}
+        if "exc" in o or "exception" in o or "harness_error" in o:
+            S.violation("C11.total", "C11.total/exception-escapes/logger-history", inp, expected="Ok or Err", actual=o)
+        elif "render_exc" in o:
+            S.violation("C11.render", "C11.render/exception/logger-history", inp, expected="diagnostic string", actual=o)
+        elif o.get("bad"):
+            S.violation("C11.cite", "C11.cite/stale-or-missing-line/logger-history", inp, expected="cites and quotes a line of the text just parsed", actual=o)
+        S.add("outcomes", "hist:" + ("ok" if "ok" in o else "err"))
+
+
 def run(tier):
     common.bind_repo()
     r = Run("C11", tier)
@@ -254,11 +319,13 @@ def run(tier):
     r.bounds = {f: len(v) for f, v in fam.items()}
     for s in pmap(make_worker(tier), chunks(items, 400)):
         r.stats.merge(s)
+    run_logger_histories(r.stats, tier)
+    r.bounds["logger_history_depth"] = 3 if tier == "quick" else 4
     r.rule = (
         "inputs = every prefix (character boundary) of every corpus text (all .fcp files of the repository + the C07 descriptions), every single-token mutation "
         "(delete, duplicate, swap with next, replace by each of %d tokens) at every token position of the example/golden files, every token string over two 12-token alphabets up to the "
         "length bound after a valid preamble (and up to 3 with none), every literal slot x every value form, every param name x arity, and the same inside an imported module. "
-        "Each is one execution of the real parser (+ Logger.error on Err). non-trivial = distinct inputs that are not accepted." % len(MUT_TOKENS)
+        "Each is one execution of the real parser (+ Logger.error on Err); plus every sequence of parses (7 texts, length <= 3/4) through ONE Logger object (fork-snapshot). non-trivial = distinct inputs that are not accepted." % len(MUT_TOKENS)
     )
     r.assumptions = ["termination is decided within an alarm of 10 s per input"]
     return r.finish()
